@@ -3,6 +3,7 @@ import RexModel.Async.Pipeline
 import RexModel.Async.FullPipe
 import RexModel.Async.Guard
 import RexModel.Props.FieldTime
+import RexModel.Async.Blocking
 import Mathlib.Algebra.Order.Field.Basic
 import Mathlib.Tactic.Linarith
 import Mathlib.Order.Monotone.Basic
@@ -300,6 +301,17 @@ theorem C03_recorded_arrivals_fifo {α : Type} [Field α] [LinearOrder α] [IsSt
       = recvChain cc.commDelay 0 zeroT ((s.q (.conn c .record)).filterMap sentRec) := hz
   rw [hz']
   exact Rex.FieldTime.chain_sorted rnd fdiv hm hidem cc.commDelay _ 0 zeroT
+
+/-- **Blocking connections: the phase rule decides which step consumes a message, under every schedule** (machine level): in every
+reachable state and for every step `i` of the receiver that `push_selection` has served, exactly `blCount i` recorded messages carry
+`seq_in = i` — `blCount i` being the number the extracted phase arithmetic of `push_expected_blocking` computes for tick `i` from
+rates and phases alone — and no recorded message names a later step. With exactly-once/in-order (`C03_exactly_once_in_order`) this
+fixes the consuming step of every message: message `k` goes to the step whose cumulative count first exceeds `k`. -/
+theorem C03_blocking_phase_rule {T : Type} [TimeLike T] (cfg : Cfg T) (c : Nat) (cc : ConnCfg T) (nc : NodeCfg T)
+    (hwf : WFBlocking cfg c cc nc) {σ : List Rule} {s : MSt T} (h : Rex.Conf.Run (machine cfg).toNet.sys (initState cfg) σ s) (i : Nat) :
+    cntIn (Int.ofNat i) (s.q (.conn c .record)) = if i < (s.priv (.select c)).tick then blCount cfg cc (Int.ofNat i) else 0 := by
+  have hi := binv_run cfg c cc nc hwf h (binv_init cfg c (blCount cfg cc))
+  exact hi.rc i
 
 /-- **Exactly once, in arrival order, under every schedule** (machine level, last stage of a connection): along every execution
 of the asynchronous machine, the sequence "messages recorded as consumed, followed by messages arrived but not yet consumed" of a
